@@ -1,0 +1,23 @@
+//go:build !verif
+
+package runtime
+
+// No-op versions of the monitoring hooks (see verif_on.go).
+
+const (
+	VerifSiteGoBefore = iota + 1
+	VerifSiteGoAfter
+	VerifSiteSend
+	VerifSiteReceive
+	VerifSiteSelect
+	VerifSiteArgsGet
+	VerifSiteNativeCall
+	VerifSiteArgsPut
+)
+
+type verifState struct{}
+
+func verifStep(vm *VM)                   {}
+func verifDoneSet()                      {}
+func verifYield(vm *VM, site int)        {}
+func verifNativeCall(fn *NativeFunction) {}
